@@ -207,7 +207,10 @@ struct Judge {
                 if (order == 1) { trunc = (LD)h / 2 * supDeriv(M.F[j], y0, i, 2, 0, h); noise = (M.evalErr(j, yp) + M.evalErr(j, y0)) / h; }
                 else { trunc = (LD)h * h / 6 * supDeriv(M.F[j], y0, i, 3, -(LD)h, h); noise = (M.evalErr(j, yp) + M.evalErr(j, ym)) / (2 * (LD)h); }
                 const double e = est(j, i);
-                const double tol = (double)(1.02L * (trunc + noise) + 8 * U * fabsl((LD)e) + fabsl(tru) * 4 * U * std::fabs(y0[i]) / h) + 1e-300;
+                // the evaluation points y0[i]+-h are themselves rounded to double (<= U*(|y0|+h) each); that moves F by up to
+                // sup|dF/dy_i| over the stencil, which matters when dF/dy_i(y0) ~ 0 but is not ~ 0 at y0+-h (false alarm 14)
+                const LD absc = supDeriv(M.F[j], y0, i, 1, order == 1 ? 0 : -(LD)h, h) * 2 * U * (std::fabs(y0[i]) + (LD)h) / (LD)h;
+                const double tol = (double)(1.02L * (trunc + noise) + absc + 8 * U * fabsl((LD)e) + fabsl(tru) * 4 * U * std::fabs(y0[i]) / h) + 1e-300;
                 const double resid = (double)fabsl((LD)e - tru);
                 const std::string tc = trunc == 0 ? "exact-to-rounding" : "truncation-bound";
                 c.check("err:" + entry + ":" + (order == 1 ? "forward" : "central") + ":" + fcls + ":" + tc, resid, tol, [&] {
